@@ -7,7 +7,7 @@ from hypothesis import strategies as st
 from ..runner import Shard, Violation
 from ..tools import ITER_TOOLS, AGG_TOOLS, TOOLS
 from ..gen import base_case, features, EXC_NAMES
-from ..core import run_async, run_sync, consumer_view, first_diff, build
+from ..core import expect_return, run_async, run_sync, consumer_view, first_diff, build
 from ..driver import Ctx, run
 from .c06 import uses_of, with_fault
 
@@ -110,8 +110,7 @@ def check_one(c, base_view):
     if not ok:
         raise Violation(f"C03/{tool}/returns-plain-value", f"{type(made).__name__}", case=c)
     ba, outcome = run_async(c)
-    if outcome[0] != "return":
-        raise Violation(f"C03/{tool}/consumer-crash", repr(outcome), case=c)
+    expect_return(outcome, f"C03/{tool}", c)
     view = consumer_view(ba.ctx.log)
     d = first_diff(view, base_view)
     if d is not None:
